@@ -32,6 +32,7 @@ import NrfProofs.C05Example3
 import NrfProofs.C05Reasm
 import NrfProofs.L3Discharge
 import NrfProofs.C05FragE
+import NrfProofs.C13HopsExample
 
 namespace Nrf.Props.C05
 open Nrf Nrf.Net Nrf.Spec Nrf.Proofs Nrf.Props.C04
@@ -1140,5 +1141,85 @@ needs what the link layer of this development does not have yet:
     reception history (`lastRx`) in the invariant — for which `Nrf.L3.l3_send_pid` (the PID sequence of
     `send`, NrfProofs/L3Send.lean) and `rxFrag_succ_ne` (consecutive fragments differ) are the ingredients.
 -/
+
+/-! ## routes, acknowledged types (65..191)
+
+Point (2) left open at `C05_route_partial`: a single-frame message of a type that asks for a NETWORK_ACK,
+over a tree route with at least one router.  Delivery then happens *inside* `write()`: the whole route
+runs, nested, in the first `read()` of the origin's wait loop, and the NETWORK_ACK comes back the same way
+(NrfProofs/C13Hops*.lean; the liveness statement proper is `C13_live_closed` in NrfProps/C13.lean). -/
+
+/-- **A single-frame message of a type with NETWORK_ACK (the user types 65..127; also the system types
+    129, 132..147, 151..191 when the destination has `ret_sys_msg = False`) over any tree route of two or more
+    hops** — closed system with the schedule of `runOthers`, loss-free, driver contracts discharged
+    (`l3contracts`).  `NetOk` network, nobody has address `0o4444`, all RX FIFOs empty, every node of the
+    tree route from the caller `a` to `d` present and not having received anything yet, the destination's
+    queue accepting the frame.  Then `write()` returns `True` and, when it returns, **the destination's
+    queue has gained exactly that message (origin, type, bytes) and every other node's queue is
+    unchanged** (`DeliveredOnce`) — no further `update()` call is needed — for routes of any length
+    (C04: at most 8 hops).  One-hop routes of these types are `C05_two_nodes_closed` (no NETWORK_ACK between
+    neighbours).
+
+    `_partial` with respect to the full C05 statement for the same reasons as `C05_route_partial`:
+    schedules other than `runOthers`, fragmented messages, radios that received frames before. -/
+theorem C05_route_ack_closed_partial (cfg : AddrCfg) (hcfg : CfgOk cfg) (L : LinkCfg)
+    (tree : Nat → List Nat) (s : NetState) (a : Nat) (d : List Nat) (ty : Int) (msg : Bytes)
+    (hok : NetOk cfg L tree s) (hcur : s.cur = a) (hact : s.active = [a]) (ha : a < s.nodes.length)
+    (hsize : s.nodes.length ≤ 20000) (hndef : ∀ i, val (tree i) ≠ NETWORK_DEFAULT_ADDR)
+    (h2 : 2 ≤ dist (tree a) d)
+    (hroute : ∀ k, k ≤ dist (tree a) d →
+      ∃ j, j < s.nodes.length ∧ tree j = hops k (tree a) d ∧ (s.radioAt j).lastRx = none)
+    (hquiet : ∀ i, i < s.nodes.length → (s.radioAt i).rxFifo = [])
+    (hty : 65 ≤ ty ∧ ty ≤ 191)
+    (hsys : ty ≤ 127 ∨ ((∀ j, j < s.nodes.length → tree j = d → (s.nodeAt j).retSysMsg = false) ∧
+      ty ≠ 128 ∧ ty ≠ 130 ∧ ty ≠ 131 ∧ ty ≠ 148 ∧ ty ≠ 149 ∧ ty ≠ 150))
+    (hlen : msg.length ≤ MAX_FRAG_SIZE)
+    (hmax : msg.length ≤ (s.nodeAt a).maxMessageLength)
+    (hacc : ∀ j, j < s.nodes.length → tree j = d →
+      Accepts (s.nodeAt j).queue (wireCopy (callerFrame (tree a) d s.nextId ty msg))) :
+    ∃ s1 jd, jd < s.nodes.length ∧ tree jd = d ∧
+      nexec (apiNetWrite (val d) ty msg AUTO_ROUTING) s =
+        (.ok (true, callerFrame (tree a) d s.nextId ty msg), s1) ∧
+      DeliveredOnce s.nodes s1.nodes jd (val (tree a)) ty.toNat msg := by
+  have hsys' : ∀ j, j < s.nodes.length → tree j = d → Hops.SysOk ty.toNat (s.nodeAt j).retSysMsg := by
+    intro j hj htj
+    unfold Hops.SysOk MAX_USR_DEF_MSG_TYPE
+    rcases hsys with h | ⟨h1, h3⟩
+    · refine ⟨Or.inl (by omega), ?_⟩
+      omega
+    · refine ⟨Or.inr (h1 j hj htj), ?_⟩
+      omega
+  exact Hops.live_route l3contracts cfg hcfg L tree s a d ty msg hok hcur hact ha hsize hndef h2 hroute hquiet hty hsys'
+    hlen hmax hacc
+
+/-- non-vacuity: the chain `0o0 — 0o1 — 0o11 — 0o111` of `NrfProofs/C13HopsExample.lean`, the great-grandchild
+    writing `[9, 8, 7]` with type 100 to the master over three hops -/
+example : ∃ s1 jd, jd < 4 ∧ Example.Hops.tree4 jd = [] ∧
+    nexec (apiNetWrite (val []) 100 [9, 8, 7] AUTO_ROUTING) Example.Hops.four =
+      (.ok (true, callerFrame [1, 1, 1] [] 8 100 [9, 8, 7]), s1) ∧
+    DeliveredOnce Example.Hops.four.nodes s1.nodes jd (val [1, 1, 1]) 100 [9, 8, 7] :=
+  C05_route_ack_closed_partial {} (by decide) Example.L Example.Hops.tree4 Example.Hops.four 3 [] 100 [9, 8, 7]
+    Example.Hops.four_ok rfl rfl (by decide) (by decide) Example.Hops.four_ndef (by decide)
+    (by
+      intro k hk
+      have hd : dist (Example.Hops.tree4 3) [] = 3 := by decide
+      rw [hd] at hk
+      have : k = 0 ∨ k = 1 ∨ k = 2 ∨ k = 3 := by omega
+      rcases this with rfl | rfl | rfl | rfl
+      · exact ⟨3, by decide, by decide, by decide⟩
+      · exact ⟨2, by decide, by decide, by decide⟩
+      · exact ⟨1, by decide, by decide, by decide⟩
+      · exact ⟨0, by decide, by decide, by decide⟩)
+    (by
+      intro i hi
+      rcases Example.Hops.four_lt i hi with rfl | rfl | rfl | rfl <;> decide)
+    (by decide) (Or.inl (by decide)) (by decide) (by decide)
+    (by
+      intro j hj htj
+      rcases Example.Hops.four_lt j hj with rfl | rfl | rfl | rfl
+      · exact ⟨by decide, by intro g hg; cases hg⟩
+      · exact absurd htj (by decide)
+      · exact absurd htj (by decide)
+      · exact absurd htj (by decide))
 
 end Nrf.Props.C05
